@@ -3,7 +3,7 @@ import time
 from lib.common import run_tasks, finish
 
 MOD = 'contracts.statistics_native'
-# number of slices of the input domain of the heavier natives (default 1); errors_* / plain_* are bundled in two tasks
+# number of slices of the input domain of the heavier natives (default 1); errors_* are bundled in two tasks
 SLICES = {'quantiles_excl_int': 4, 'quantiles_incl_int': 4, 'mode_unique_int': 2, 'median_int': 4, 'median_low_int': 4, 'median_high_int': 4,
           'quantiles_excl_fxp': 2, 'quantiles_incl_fxp': 2, 'stdev_fxp': 2, 'pstdev_fxp': 2, 'correlation_fxp': 3, 'covariance_int': 2}
 
@@ -30,7 +30,7 @@ def run(tier, seed):
                               '(SecFxp(32,16), SecFxp(16,8)): enumerated data on the 1/4 and 1/16 grids; the result must lie in the interval obtained by propagating the '
                               'unit bounds of C02 (product 1u, public float factor 2(1+|x|)u, secret division 16(1+|a|+|a/b|)u, bisection square root) through the documented '
                               'formula. Randomised selection (_quickselect) is run with 3 PRSS seeds per case. Errors (StatisticsError/ValueError/TypeError) must match Python '
-                              'on the same plain data; plain data must be relayed to Python',
+                              'on the same data. Plain (non-secure) data is outside the property and not checked',
                   assumptions=['single-party runtime (m = 1): the code of mpyc/statistics.py is the same for every m; the secure operators it calls are covered by C01/C02/C29/C30',
                                'preconditions taken from Python: correlation needs non-constant x and y, linear_regression non-constant x (Python raises StatisticsError; the '
                                'secure version cannot branch on secret data); mode of fixed-point data needs integral values',
